@@ -62,12 +62,24 @@ func (o Op) String() string {
 type logCapture struct {
 	mu   sync.Mutex
 	recs []string
+	// onCheckpoint, when set, runs once at litestream's next "checkpoint" log line — emitted
+	// right after its PRAGMA wal_checkpoint and before it re-acquires its read lock.
+	onCheckpoint func()
 }
 
 func (l *logCapture) Enabled(context.Context, slog.Level) bool { return true }
 func (l *logCapture) Handle(_ context.Context, r slog.Record) error {
 	if r.Message != "checkpoint" && r.Message != "sync" && !strings.Contains(r.Message, "snapshot") {
 		return nil
+	}
+	if r.Message == "checkpoint" {
+		l.mu.Lock()
+		f := l.onCheckpoint
+		l.onCheckpoint = nil
+		l.mu.Unlock()
+		if f != nil {
+			f()
+		}
 	}
 	var sb strings.Builder
 	sb.WriteString(r.Message)
